@@ -59,6 +59,9 @@ pub struct St {
     /// peer window in bytes most recently applied, and whether it was applied after the last MSS change
     rwnd_bytes: Option<usize>,
     rwnd_current: bool,
+    /// the same controller behind the tracing wrapper (`CongestionConfig { tracing: true }`): it must
+    /// forward every call - compared after every event
+    t: librqbit_utp::verif::TracingController<Cubic>,
 }
 
 fn rwnd_val(code: u8, mss: usize) -> usize {
@@ -74,7 +77,7 @@ fn rwnd_val(code: u8, mss: usize) -> usize {
 
 impl St {
     pub fn new(t0: Instant) -> Self {
-        St { c: Cubic::new(t0, 528), rtte: RttEstimator::default(), t0, elapsed: 0, rwnd_bytes: None, rwnd_current: false }
+        St { c: Cubic::new(t0, 528), rtte: RttEstimator::default(), t0, elapsed: 0, rwnd_bytes: None, rwnd_current: false, t: librqbit_utp::verif::TracingController::new(Cubic::new(t0, 528)) }
     }
     fn now(&self) -> Instant {
         self.t0 + Duration::from_nanos(self.elapsed)
@@ -107,6 +110,7 @@ pub fn step(s: &mut St, ev: Ev) -> Result<u8, (String, String)> {
                     x => x,
                 };
                 s.c.on_ack(s.now(), len, &s.rtte);
+                s.t.on_ack(s.now(), len, &s.rtte);
                 Some(len)
             }
             Ev::Advance(ns) => {
@@ -121,10 +125,12 @@ pub fn step(s: &mut St, ev: Ev) -> Result<u8, (String, String)> {
             }
             Ev::Rto => {
                 s.c.on_retransmission_timeout(s.now());
+                s.t.on_retransmission_timeout(s.now());
                 None
             }
             Ev::EnterRecovery => {
                 s.c.on_enter_recovery(s.now());
+                s.t.on_enter_recovery(s.now());
                 None
             }
             Ev::Recovered(c, ss) => {
@@ -135,12 +141,15 @@ pub fn step(s: &mut St, ev: Ev) -> Result<u8, (String, String)> {
                 };
                 let sst = if ss == 0 { 0 } else { 1 << 20 };
                 s.c.on_recovered(cw, sst);
+                s.t.on_recovered(cw, sst);
                 None
             }
             Ev::SetMssAndReapply(m) => {
                 s.c.set_mss(m);
+                s.t.set_mss(m);
                 if let Some(w) = s.rwnd_bytes {
                     s.c.set_remote_window(w);
+                    s.t.set_remote_window(w);
                     s.rwnd_current = true;
                 }
                 None
@@ -150,11 +159,13 @@ pub fn step(s: &mut St, ev: Ev) -> Result<u8, (String, String)> {
                     s.rwnd_current = false;
                 }
                 s.c.set_mss(m);
+                s.t.set_mss(m);
                 None
             }
             Ev::SetRwnd(code) => {
                 let w = rwnd_val(code, mss0);
                 s.c.set_remote_window(w);
+                s.t.set_remote_window(w);
                 s.rwnd_bytes = Some(w);
                 s.rwnd_current = true;
                 None
@@ -170,6 +181,13 @@ pub fn step(s: &mut St, ev: Ev) -> Result<u8, (String, String)> {
     let st1 = s.c.verif_state(s.now());
     let cwnd1 = f64::from_bits(st1[0]);
     let ss1 = f64::from_bits(st1[1]);
+    // the tracing wrapper is transparent
+    if s.t.window() != w1 || s.t.sshthresh() != s.c.sshthresh() || s.t.smss() != mss1 {
+        return Err((
+            "cubic/tracing-wrapper-differs".into(),
+            format!("after {ev:?} the controller behind the tracing wrapper reports window {} ssthresh {} mss {}, the plain one {} {} {}", s.t.window(), s.t.sshthresh(), s.t.smss(), w1, s.c.sshthresh(), mss1),
+        ));
+    }
     // finite internal window
     if !cwnd1.is_finite() {
         return Err(("cubic/non-finite".into(), format!("internal congestion window became {cwnd1} after {ev:?}")));
